@@ -13,7 +13,7 @@ import Aegean.Spec.C04
     lmjac n npix comps… pixels… E B            -> npix then nrows, then npix*nrows entries, row-major (lmfitJacGen:
                                                   the regenerated pipeline of lmfit_jacobian run by Model.runOps)
     pipeline                                   -> src len op0 op1 … (the regenerated pipeline itself)
-    fisherwords                                -> jacC jacB sigma C <word> B <word>  (regenerated Fisher assembly of covar_errors)
+    fisherwords                                -> jacC jacB sigma maskCovar maskFit C <word> B <word>  (regenerated Fisher assembly of covar_errors)
           E ::= enone | escalar v | evec v*npix       B ::= bnone | bmat v*(npix*npix)
     assign mask*n                              -> for each component, six entries `idx` or `-` (assignIdx)
     assignpinned mask*n                        -> the same for the pinned loop (j reset per component)
@@ -168,7 +168,7 @@ def handle (ws : List String) : String :=
   | "tlmjac" :: rest => handleD handDerivs true ("lmjac" :: rest)
   | "leaf" :: _ | "sum" :: _ | "jac" :: _ | "lmjac" :: _ => handleD genDerivs false ws
   | ["fisherwords"] =>
-    s!"{Gen.C04.fisJacC 0} {Gen.C04.fisJacB 0} {Gen.C04.fisSigma 0} C " ++
+    s!"{Gen.C04.fisJacC 0} {Gen.C04.fisJacB 0} {Gen.C04.fisSigma 0} {Gen.C04.fisMask 0} {Gen.C04.fitMask 0} C " ++
       showNats ((List.range (Gen.C04.fisLenC 0)).map Gen.C04.fisWordC) ++ " B " ++
       showNats ((List.range (Gen.C04.fisLenB 0)).map Gen.C04.fisWordB)
   | ["pipeline"] =>
